@@ -186,7 +186,12 @@ func buildFamily(x *Executor, seed uint64, idx int) (*family, int, error) {
 					}
 				}
 			}
-			note = "two parser rules reordered"
+			if r.Intn(3) == 0 {
+				// the parser section is dropped altogether: a lexer-only project
+				s.Rules = nil
+				s.Start = 0
+			}
+			note = "two parser rules reordered (or parser section dropped)"
 		default:
 			for _, rr := range s.Rules {
 				rr.Ret = (rr.Ret + 1) % 3
